@@ -58,6 +58,11 @@ def s_token(cls, w, h):
         "zero": "0", "one": "1", "max": "X" * w, "neg": "-", "plus": "A  B C"[:w], "zeropad": "a=b\"c'd"[:w],
         "exp": "E+05", "tiny": "z", "negzero": "-0.0", "typical2": "Tokyo, JP"[:w],
     }
+    # free text that happens to be all digits (an order number, a bare compact time stamp): still text
+    if cls == "exp" and w >= 10:
+        return ("2020010203040598", "20200102030405", "1234567890")[h % 3][:w]
+    if cls == "one" and w >= 12:
+        return "202001020304"
     if cls == "left":
         t = product.str_text(h, max(1, w - 2))
         return (" " * min(2, w - len(t)) + t).encode().ljust(w)  # leading blanks: padding, stripped
